@@ -38,10 +38,14 @@ FLOORS = {
     'quick': dict({'events_checked': 4000, 'tagging_compared': 2500, 'failing_reached': 800, 'default_only_compared': 4000,
                    'declared_params_calls': 500, 'per_instance_compared': 4000, 'per_instance_mixed_named_and_default': 500, 'based_rule_events_both_declare_params': 20, 'fallback_name_calls': 1000, 'nomemo_retry_k3': 200, 'memo_replay_seen': 25,
                    'gen_cases': 400, 'gen_reused_cases': 150, 'scalar_family_cases': 1200,
-                   'semantics_delivered_by:attribute': 8000, 'semantics_delivered_by:constructor': 1500}, **{'exc_propagated:' + e: 60 for e in EXC_TYPES}),
+                   'grammars_with_rules_named_like_builtins': 250, 'semantics_delivered_by:attribute': 8000, 'semantics_delivered_by:constructor': 1500}, **{'exc_propagated:' + e: 60 for e in EXC_TYPES}),
     'thorough': {'events_checked': 100000, 'tagging_compared': 60000, 'failing_reached': 20000},
 }
 N = {'quick': 2400, 'thorough': 64000}
+
+
+BUILTIN_LIKE_NAMES = ['sum', 'id', 'input', 'format', 'hash', 'filter', 'max', 'min', 'len', 'next', 'iter', 'object', 'range', 'vars',
+                      'dir', 'repr', 'abs', 'all', 'any', 'map', 'zip', 'open', 'slice', 'property', 'bin', 'chr', 'ord', 'pow', 'round']
 
 
 class CustomError(Exception):
@@ -97,6 +101,13 @@ def gen_case(rng):
         own = r.params or (tuple(rng.sample(['D', 'own', 9], rng.choice([1, 2]))) if rng.random() < 0.6 else ())
         rules[i + 1] = L.Rule(r.name, r.body, r.decorators, own, r.kwparams, base='bs')
         g = L.Grammar(rules, dict(g.directives), tuple(g.keywords))
+    nrng = random.Random(h64('C06', 'names', L.grammar_text(g)))
+    if nrng.random() < 0.2:
+        # rules (hence actions) called like Python builtins: an action named `sum` is still the rule's action and must
+        # receive the rule's parameters (own RNG: the rest of the workload keeps its draws)
+        pool = nrng.sample(BUILTIN_LIKE_NAMES, 4)
+        mapping = {r.name: pool.pop() for r in g.rules if r.name not in ('start', 'bs') and pool}
+        g = G.rename_rules(g, mapping)
     return g
 
 
@@ -548,6 +559,8 @@ def run_shard(desc, acc):
         except Exception as e:  # noqa: BLE001
             acc.count('build_failed:' + type(e).__name__)
             continue
+        if any(r.name in BUILTIN_LIKE_NAMES for r in g.rules):
+            acc.count('grammars_with_rules_named_like_builtins')
         if kind != 'model':
             acc.count('gen_cases')
         if kind == 'gen-reused':
